@@ -776,6 +776,12 @@ def r_bij(ctx) -> RuleResult:
             # incremental construction (final labels): dedicated proof
             ok, why = _incremental_bijection(ctx, fi, cs.node)
             if ok is None:
+                keys_are_labels = m[0] == "Map" and isinstance(m[1], tuple) and m[1][:1] == ("NX",)
+                values_may_repeat = m[0] == "Map" and (m[2] in ("VAL", "HASH", "COL") or (isinstance(m[2], tuple) and m[2][:1] == ("ATTR",)))
+                if m[0] == "Map" and not m[3] and keys_are_labels and not values_may_repeat:
+                    # keys are node labels and values positions, only that they pair up one to one is not established
+                    # (a length the typing does not know): not shown, and not refuted
+                    raise AnalysisError(f"R-BIJ: mapping {fmt(m)} at {fi.loc(node)}: that keys and values pair up one to one is not established ({why})")
                 if m[0] == "Map" and not m[3]:
                     res.inst(where, short(node), "fail", detail=f"{fmt(m)}")
                     res.fail(Finding("R-BIJ", fi.module.rel, fi.qualname, norm(node),
@@ -854,7 +860,9 @@ def _incremental_bijection(ctx, fi: FuncInfo, call: ast.Call):
                 if an is not None and rn is not None and cfg.dominates(an, rn):
                     asserted = True
     if not asserted:
-        return False, "no dominating `assert len(mapping) == number of nodes`: an atom could keep its old label and collide with a new one"
+        # that every atom is visited would have to be read out of the traversal loops, which this rule does not do: not
+        # shown, and not refuted
+        return None, "no dominating `assert len(mapping) == number of nodes`, and that the traversal reaches every atom is not followed here"
     return True, f"values popped from `{pool}` (built by {pcs.target.name}: every node appended once), totality asserted before the relabel"
 
 
